@@ -298,6 +298,9 @@ func runC05(c *engine.Ctx) {
 		}
 	}
 	long := alphaClass == 5 && p.Draw(3, "cfg:long") != 0
+	if c.Tier != "thorough" && long && p.Draw(3, "cfg:long-quick") != 0 {
+		long = false // quick tier: fewer long histories
+	}
 	nops := p.Range(1, 8, "cfg:nops")
 	if long {
 		max := 600
